@@ -152,4 +152,11 @@ theorem eager_last_set (hb : Bool) (pre : List Pre) (d d' : DepState) (x : Pre) 
     | error e => simp [hy] at h
     | ok d1 => simp only [hy] at h; exact ih d1 h
 
+/-- `successor_keeps_result_settings`: the parameters handed to `requeue` for a retry and for the next iteration of a
+    recurring job carry the same result settings (id, ttl) as the message that just ran — every later execution stores
+    under the same id, so "the latest execution overwrites" extends over retry and reschedule chains -/
+theorem successor_keeps_result_settings (p : Params) (now : Int) (cron : String → Int → Int) (d : Int) :
+    (p.prepareReschedule now cron).result = p.result ∧ (p.prepareRetry now d).result = p.result := by
+  constructor <;> simp [Params.prepareReschedule, Params.prepareRetry]
+
 end Repid.C13
